@@ -776,6 +776,12 @@ pub fn run(run: &'static Run) {
             run.set(&format!("engine_scenario:{}", s.name), json!({"depth_bound_completed": st.depth_completed, "unique_states": st.states, "transitions": st.transitions}));
         }
     }
+    // honest histories across the activation of the coin counts (testnet 500, mainnet 830000): spending an address empty afterwards
+    for mut sc in crate::props::c20::scenarios(false).into_iter().filter(|s| s.name == "testnet-activation" || s.name == "mainnet-activation-830000") {
+        sc.depth = 5;
+        let st = run_scenario(run, &sc, 200_000);
+        run.set(&format!("engine_scenario:{}", sc.name), json!({"depth_bound_completed": st.depth_completed, "unique_states": st.states, "transitions": st.transitions}));
+    }
     for sc in crate::props::c16::scenarios(false).into_iter().chain(crate::props::c15::scenarios(false).into_iter().take(2)) {
         let st = run_scenario(run, &sc, 400_000);
         run.set(&format!("engine_scenario:{}", sc.name), json!({"depth_bound_completed": st.depth_completed, "unique_states": st.states, "transitions": st.transitions}));
